@@ -45,12 +45,19 @@ func tailS(s string) string {
 var goEnv = append(os.Environ(), "GOFLAGS=-mod=mod", "GOPROXY=off", "GOSUMDB=off", "GOTOOLCHAIN=local")
 
 func main() {
+	// packages.Load (inside codescan) runs the go tool with this process's environment
+	for _, kv := range []string{"GOFLAGS=-mod=mod", "GOPROXY=off", "GOSUMDB=off", "GOTOOLCHAIN=local"} {
+		p := strings.SplitN(kv, "=", 2)
+		_ = os.Setenv(p[0], p[1])
+	}
 	if len(os.Args) < 2 {
 		die("usage: scancheck c16|c17|c18 ...")
 	}
 	switch os.Args[1] {
 	case "c16":
 		c16(os.Args[2:])
+	case "c18":
+		c18(os.Args[2:])
 	default:
 		die("unknown subcommand %s", os.Args[1])
 	}
